@@ -34,10 +34,10 @@ ASSUMPTIONS = [
     "a plain call issued before force_stop() may never execute if the loop stops first (queued, not guaranteed); if it executes it executes exactly once and in call order",
     "exceptions of plain calls surface in the owner loop's exception handler",
 ]
-PROBES = ["call.handover", "call.coro_value", "call.coro_slow", "call.coro_raises", "call.plain_none", "call.plain_value", "call.attr", "call.direct", "call.after_close", "force_stop_mid_burst", "force_stop_from_task",
+PROBES = ["call.handover", "call.coro_value", "call.coro_slow", "call.coro_careful", "call.coro_raises", "call.plain_none", "call.plain_value", "call.attr", "call.direct", "call.after_close", "force_stop_mid_burst", "force_stop_from_task",
           "preempted_in_proxy", "thread_switches", "typeerror_on_owner", "cancelled_by_stop", "owner_main_direction", "burst_ge_10"]
 
-KINDS = ("coro_value", "coro_raises", "plain_none", "plain_value", "attr", "coro_slow")
+KINDS = ("coro_value", "coro_raises", "plain_none", "plain_value", "attr", "coro_slow", "coro_careful")
 
 
 class Boom(Exception):
@@ -68,6 +68,16 @@ class Obj:
         """A body that stays suspended for a while (like Gateway.send_data waiting for its ACK)."""
         self._note("coro_slow", x)
         await asyncio.sleep(0.05)
+        return ("value", x)
+
+    async def coro_careful(self, x):
+        """A body that cleans up when cancelled and needs further loop turns for it (an `async with`, a finally that awaits)."""
+        self._note("coro_careful", x)
+        try:
+            await asyncio.sleep(0.05)
+        finally:
+            await asyncio.sleep(0)
+            await asyncio.sleep(0)
         return ("value", x)
 
     async def coro_raises(self, x):
@@ -374,7 +384,7 @@ def run(scenario, params, tape, detail=False):
                 viol.append(("C20.plain", "return-value", f"plain call {c['id']} ({k}) from the other loop returned {res!r} to the caller"))
             if n_exec == 0 and not overl and outcome == "done":
                 viol.append(("C20.plain", "not-executed", f"plain call {c['id']} ({k}) was never executed on the owner's loop although the loop kept running"))
-        elif k in ("coro_value", "coro_slow"):
+        elif k in ("coro_value", "coro_slow", "coro_careful"):
             if res[0] == "value" and res[1] != ("value", c["id"]):
                 viol.append(("C20.relay", "wrong-value", f"coroutine call {c['id']} returned {res[1]!r}"))
             elif res[0] == "raised" and not overl:
